@@ -26,6 +26,13 @@ CHECKS = {
             "correspondence check (composite encode+decode call) on generated graphs, arc subsets, tables, checks, both modes.",
             "Coq proof (refinement of the decimal-string coder to a mixed-radix reference, termination by pigeonhole) + "
             "extraction-based correspondence", "5 C01"),
+    "C02": ("Theorems: for ANY filter function, every window of start k-mer + strand is accepted by the filter the graph was "
+            "generated for (walks and encoder outputs, both modes, with/without table); for window-decidable local filters the "
+            "prefixed strand passes the whole-sequence check and the strand alone passes when at least one window long or when "
+            "the integer thresholds are coherent.  Two clauses of the property are REFUTED with kernel-checked witnesses and "
+            "recorded as known findings F7 (constructor accepts run == window) and F8 (binary64 rounding, short strand alone).  "
+            "Tied to dsw by a composite pipeline call (filter -> vertices -> graph -> encode -> verdicts).",
+            "Coq proof (composition of C03/C04/C11/C12/C13 lemmas) + refutation witnesses + extraction-based correspondence", "5 C02"),
     "C03": ("Theorems for every order k >= 1, every 0/1 mask and thresholds 1..4: connect_coding_graph returns the vertex-induced "
             "sub-graph on the LARGEST closed subset of the mask (greatest fixed point; for t = 1 incl. reachability of a branching "
             "vertex, proved through the cascade invariant), the vertex description denotes exactly the vertices with arcs, and "
@@ -56,6 +63,15 @@ CHECKS = {
             "changes under every substitution and every C/G/T indel, and decode with the original check rejects; tied to "
             "dsw.set_vt / decode by the correspondence check incl. every single edit of sampled walks.",
             "Coq proof (sum mod 4 argument, radix rendering) + extraction-based correspondence", "5 C07"),
+    "C09": ("Theorems: on a strand that is already a walk repair returns exactly that strand (or nothing if the supplied check "
+            "disagrees) with zero detected errors, for every shaped accessor / option / heap limit; whenever repair returns, the "
+            "candidate list is strictly increasing (sorted, duplicate-free) and every candidate reproduces the supplied check.",
+            "Coq proof (scan-loop invariant, sorted-insertion lemmas) + extraction-based correspondence", "5 C09"),
+    "C10": ("Theorem: for every ACGT strand at least k long, every order-k graph with in-range entries, every start vertex and "
+            "option, repair_dna returns a (candidates, statistics) pair: the fuel-bounded scan loop never runs out of fuel, no "
+            "subscript is out of range, and the look-up counter is at most n(1+16k^2).  Tied to dsw by the correspondence check "
+            "(full result incl. the look-up counter) with the implementation under a row-read budget.",
+            "Coq proof (termination measure on the scan position, shape invariants) + extraction-based correspondence", "5 C10"),
     "C11": ("Theorems with the filter as an arbitrary function (so for every user-defined filter): find_vertices marks index i "
             "iff the filter accepts the i-th k-mer and raises ValueError iff none is accepted; connect_valid_graph returns "
             "exactly the induced sub-graph with the column = last nucleotide layout, ValueError for the empty mask; tied to dsw "
